@@ -4,6 +4,12 @@ From BSV Require Import Base.Hex Model.Opcodes Model.Script Model.Asm Spec.Scrip
 
 Definition out3 (impl spec known : string) : string := impl +++ "|" +++ spec +++ "|" +++ known.
 
+(* Outside the quantifier of the round-trip / rendering statements the property still demands totality
+   (rendering and parsing never panic).  The comparison language cannot wildcard the first field, so the
+   expected value printed for such inputs is the model's own non-panicking output: a panic or abort of the
+   library is then a specification violation with the failing input attached. *)
+Definition total_only (impl : string) : string := if String.eqb impl "PANIC" then "ERR" else impl.
+
 (* text travels as the hex of its bytes (checksummed above 1024 bytes, like every byte string) *)
 Definition show_text (s : string) : string := show_bytes (bytes_of_string s).
 
@@ -26,10 +32,10 @@ Definition run_to_asm (ext : bool) (bs : bytes) : string :=
               | TokOk ts =>
                   if balanced ts then
                     if ext then "OK:" +++ show_text (render_ext ts)
-                    else if forallb nonempty_push ts then "OK:" +++ show_text (render_plain ts) else "-"
+                    else if forallb nonempty_push ts then "OK:" +++ show_text (render_plain ts) else total_only impl
                   else "ERR"
               | TokBad => "ERR"
-              | TokTruncDirect => "-"
+              | TokTruncDirect => total_only impl
               end in
   out3 impl spec "-".
 
@@ -44,7 +50,7 @@ Definition run_from_asm (t : string) : string :=
                 | None => "ERR"
                 end in
     out3 impl spec "-"
-  else out3 impl "-" "-".
+  else out3 impl (total_only impl) "-".
 
 (* script.asm_roundtrip : bytes -> from_bytes -> to_asm -> from_asm -> bytes, to_asm *)
 Definition run_roundtrip (bs : bytes) : string :=
@@ -66,10 +72,10 @@ Definition run_roundtrip (bs : bytes) : string :=
           let t := show_text (render_plain ts) in
           out3 impl ("OK:" +++ t +++ ";" +++ show_bytes bs +++ ";" +++ t)
                (if existsb numeric_tok ts then "ambiguous-numeric-push" else "-")
-        else out3 impl "-" "-"
+        else out3 impl (total_only impl) "-"
       else out3 impl "ERR" "-"
   | TokBad => out3 impl "ERR" "-"
-  | TokTruncDirect => out3 impl "-" "-"
+  | TokTruncDirect => out3 impl (total_only impl) "-"
   end.
 
 (* P2PKHAddress::get_locking_script: the address formats its 20-byte hash into ASM text *)
